@@ -92,8 +92,8 @@ Reduce(f, vals) ==
     [] f = "fn:sum"   -> Num(SumSeq(vals, 1))
     [] f = "fn:max"   -> Num(MaxOf({vals[i][2] : i \in DOMAIN vals}))
     [] f = "fn:min"   -> Num(MinOf({vals[i][2] : i \in DOMAIN vals}))
-    [] f = "fn:count_distinct" -> Num(Cardinality(Range(vals)))
-    [] f = "fn:collect_distinct" -> <<"set", Range(vals)>>   \* compared as a set
+    [] f = "fn:count_distinct" -> Num(Cardinality(Ran(vals)))
+    [] f = "fn:collect_distinct" -> <<"set", Ran(vals)>>   \* compared as a set
     [] f = "fn:avg"   -> <<"ratio", SumSeq(vals, 1), Len(vals)>>  \* exact rational
     [] OTHER -> ERR
 
